@@ -42,8 +42,14 @@ package stack
 //@   ensures forall k :: 0 <= k && k < old(r.w - r.r) ==> r.buf[k] == old(r.buf[r.r + k])
 //@   ensures [oneDataRead C11] dataReads(r.rd) <= old(dataReads(r.rd)) + 1
 //@   ensures [fillProgress C03] r.err == nil ==> r.w > old(r.w - r.r)
+//@   gvar lastReadErr error = zero
+//@   gvar nreads int = zero
+//@   update after-call Read#1: lastReadErr := ret1; nreads := nreads + 1
+//@   at-return [readErrorRemembered C10] lastReadErr != nil ==> r.err == lastReadErr
+//@   at-return [givesUpOnlyAfterAHundredEmptyReads C09] r.err == io.ErrNoProgress && lastReadErr == nil ==> nreads >= 100
 //@   loop 0: invariant RI(r) && r.r == 0 && r.w == old(r.w - r.r) && r.err == nil && r.rd == old(r.rd) && r.rd != nil
 //@   loop 0: invariant 0 <= i && i <= 100 && fetched(r.rd) == old(fetched(r.rd)) && dataReads(r.rd) == old(dataReads(r.rd))
+//@   loop 0: invariant [emptyReadsCounted C09] lastReadErr == nil && nreads == 100 - i
 //@   loop 0: invariant forall k :: 0 <= k && k < r.w ==> r.buf[k] == old(r.buf[r.r + k])
 //@   loop 0: decreases i
 
@@ -185,8 +191,8 @@ package stack
 //@   ensures [initLine C01] c.Line == line && c.ImportPath == c.Func.ImportPath
 //@   ensures [initPath C01] srcPath != "" ==> c.RemoteSrcPath == srcPath && (lastIndexByte(srcPath, 47) != -1 ==> c.SrcName == srcPath[lastIndexByte(srcPath, 47)+1:])
 //@   ensures [initDirSrc C01] srcPath != "" && lastIndexByte(srcPath, 47) != -1 && lastIndexByte(srcPath[:lastIndexByte(srcPath, 47)], 47) != -1 ==> c.DirSrc == srcPath[lastIndexByte(srcPath[:lastIndexByte(srcPath, 47)], 47)+1:]
-//@   ensures [initTestMainIsStdlib C01 C18] srcPath != "" && c.DirSrc == testMainSrc ==> c.Location == Stdlib
-//@   ensures [initKeepsLocationOtherwise C01 C18] !(srcPath != "" && c.DirSrc == testMainSrc) ==> c.Location == old(c.Location)
+//@   ensures [initTestMainIsStdlib C01 C18] srcPath != "" && c.DirSrc == "_test/_testmain.go" ==> c.Location == Stdlib
+//@   ensures [initKeepsLocationOtherwise C01 C18] !(srcPath != "" && c.DirSrc == "_test/_testmain.go") ==> c.Location == old(c.Location)
 //@   ensures [initEmptyPathKeepsFields C01] srcPath == "" ==> c.RemoteSrcPath == old(c.RemoteSrcPath) && c.SrcName == old(c.SrcName) && c.DirSrc == old(c.DirSrc)
 
 //@ func isFramesElidedLine
